@@ -255,7 +255,11 @@ CLAIM = {
             "cursor's remaining bytes (in the function, in the enclosing function of a closure, by an exact take_next(N) cut, or in all "
             "callers of an unsafe wrapper up to depth 3); the footer length must be compared with the file size before it sizes a buffer and "
             "size/magic checks must dominate metadata decoding; from_utf8_unchecked stays in the storage layer. Decides the untrusted-length "
-            "discipline at every site; that no byte string at all can crash the reader is not decided.",
+            "discipline at every site. Second group over the live reader functions: signed file-decoded fields are sign-checked before they become "
+            "unsigned lengths (locally or by a field invariant at every construction site), copy_from_slice operands are equal-length by "
+            "construction, constant-range indexing of file-decoded byte vectors is length-guarded, explicit panics are confined to a reviewed "
+            "table, explicit index checks imply index < len, thrift list counts are bounded by the remaining input. That no byte string at "
+            "all can crash the reader is not decided.",
     "note": "trusted: rustc MIR (async bodies are re-stitched across await points); the list of unchecked primitives of ReadCursor; known "
             "findings confirmed with single-byte corruptions kept under repro/parquet_corrupt/",
     "technique": "static analysis: MIR guard-dominance + taint rules, interprocedural through unsafe wrappers (rustc_private driver)",
